@@ -167,7 +167,10 @@ def _run_part(pid, part, tier, seed_value, known_sigs, n_examples, want_shrink):
             for sig, detail in res.violations:
                 if sig not in exclude and sig not in stats.found:
                     stats.found[sig] = {"detail": detail, "case": case}
-        if part.strategy is None:
+        extra = int(getattr(part.exhaustive, "executions", 0) or 0)
+        stats.evaluations += extra
+        stats.parts[part.name] += extra
+        if part.strategy is None and part.machine is None:
             return stats
 
     for attempt in range(MAX_ROOT_CAUSES):
@@ -243,6 +246,15 @@ def _run_part(pid, part, tier, seed_value, known_sigs, n_examples, want_shrink):
             exclude.add(sig)
             continue
         except hypothesis.errors.Flaky as e:
+            if state["last"] is not None:
+                # the recorded case did violate the oracle once: report it (unshrunk); the
+                # replay file decides whether it reproduces
+                sig = state["target"]
+                case, detail = state["last"]
+                stats.found[sig] = {"detail": "(not reproducible on every run) " + str(detail),
+                                    "case": case}
+                exclude.add(sig)
+                continue
             raise HarnessError("non-deterministic case (harness bug): %s" % e) from e
         break
     return stats
